@@ -189,8 +189,8 @@ structure Datastore where
 inductive Ev where
   | req (f : FileName)
   | limit (n : Nat)        -- the size limit applied to the request logged just before
-  | dsCreate (what : String)
-  | dsRemove (what : String)
+  | dsCreate (what : String) (after : Datastore)   -- `after`: the datastore once the operation is done
+  | dsRemove (what : String) (after : Datastore)
   deriving DecidableEq, Repr
 
 structure St where
@@ -238,8 +238,8 @@ def systemTime (cfg : Config) (st : St) : Except Err Int × St :=
   match st.ds.time with
   | some t =>
     if cfg.now < t then (.error .clock, st)
-    else (.ok cfg.now, { st with ds := { st.ds with time := some cfg.now }, log := .dsCreate "latest_known_time" :: st.log })
-  | none => (.ok cfg.now, { st with ds := { st.ds with time := some cfg.now }, log := .dsCreate "latest_known_time" :: st.log })
+    else (.ok cfg.now, { st with ds := { st.ds with time := some cfg.now }, log := .dsCreate "latest_known_time" { st.ds with time := some cfg.now } :: st.log })
+  | none => (.ok cfg.now, { st with ds := { st.ds with time := some cfg.now }, log := .dsCreate "latest_known_time" { st.ds with time := some cfg.now } :: st.log })
 
 /-- `check_expired` (only called in `Safe` mode) -/
 def checkExpired (cfg : Config) (r : RoleType) (expires : Int) (st : St) : Except Err Unit × St :=
@@ -293,10 +293,16 @@ def rootLoop (cfg : Config) (srv : Server) (v0 : Nat) : Nat → Root → St → 
       | .fail e => (.error e, st)
       | .next new => rootLoop cfg srv v0 fuel new st
 
-/-- step 1.9: both stored files are removed when the online keys changed -/
+/-- step 1.9: both stored files are removed when the online keys changed.  `load_root` attempts both
+removals before it reports a failure of either (`let r1 = remove(..); let r2 = remove(..); r1?; r2?`):
+when the removal of `timestamp.json` fails, `snapshot.json` is removed all the same — the second
+logged state is what such a failed cycle leaves behind (it is not a state a successful run passes
+through). -/
 def clearOnline (st : St) : St :=
   { st with ds := { st.ds with ts := .absent, snap := .absent },
-            log := .dsRemove "snapshot" :: .dsRemove "timestamp" :: st.log }
+            log := .dsRemove "snapshot" { st.ds with ts := .absent, snap := .absent } ::
+                   .dsRemove "snapshot (timestamp.json could not be removed)" { st.ds with snap := .absent } ::
+                   .dsRemove "timestamp" { st.ds with ts := .absent } :: st.log }
 
 /-- the root that the stored timestamp and snapshot were trusted under: the one recorded in the
 datastore, or the shipped root while nothing is recorded (or the record does not parse) -/
@@ -310,7 +316,7 @@ def onlineKeysChanged (a b : Root) : Bool :=
   a.keysIter .timestamp != b.keysIter .timestamp || a.keysIter .snapshot != b.keysIter .snapshot
 
 def recordRoot (root : Root) (st : St) : St :=
-  { st with ds := { st.ds with root := .doc root }, log := .dsCreate "root" :: st.log }
+  { st with ds := { st.ds with root := .doc root }, log := .dsCreate "root" { st.ds with root := .doc root } :: st.log }
 
 def loadRoot (cfg : Config) (srv : Server) (shipped : Option Root) (st : St) : Except Err Root × St :=
   match shipped with
@@ -354,7 +360,7 @@ def loadTimestamp (cfg : Config) (srv : Server) (root : Root) (st : St) : Except
         match expiryGate cfg .timestamp ts.expires st with
         | (.error e, st) => (.error e, st)
         | (.ok (), st) =>
-          (.ok ts, { st with ds := { st.ds with ts := .doc ts }, log := .dsCreate "timestamp" :: st.log })
+          (.ok ts, { st with ds := { st.ds with ts := .doc ts }, log := .dsCreate "timestamp" { st.ds with ts := .doc ts } :: st.log })
   | .ok _ => (.error (.parse .timestamp), st)
 
 /-! ### Step 3: snapshot -/
@@ -395,7 +401,7 @@ def loadSnapshot (cfg : Config) (srv : Server) (root : Root) (ts : Timestamp) (s
           match expiryGate cfg .snapshot sn.expires st with
           | (.error e, st) => (.error e, st)
           | (.ok (), st) =>
-            (.ok sn, { st with ds := { st.ds with snap := .doc sn }, log := .dsCreate "snapshot" :: st.log })
+            (.ok sn, { st with ds := { st.ds with snap := .doc sn }, log := .dsCreate "snapshot" { st.ds with snap := .doc sn } :: st.log })
     | .ok _ => (.error (.parse .snapshot), st)
 
 /-! ### Step 4: targets and delegations -/
@@ -433,7 +439,7 @@ def fetchRoles (cfg : Config) (srv : Server) (snap : Snapshot) (consistent : Boo
           if !delegVerify d r.name doc.msg doc.sigs then (.error (.verify .targets), st)
           else if doc.version != m.version then (.error (.versionMismatch .targets), st)
           else
-            let st := { st with log := .dsCreate "role" :: st.log }
+            let st := { st with log := .dsCreate "role" st.ds :: st.log }
             match fetchRoles cfg srv snap consistent d rest (r.name :: visited) st with
             | (.error e, st) => (.error e, st)
             | (.ok (more, visited), st) => (.ok ((r, doc) :: more, visited), st)
@@ -522,7 +528,7 @@ def loadTargets (cfg : Config) (srv : Server) (root : Root) (snap : Snapshot) (s
           match expiryGate cfg .targets doc.expires st with
           | (.error e, st) => (.error e, st)
           | (.ok (), st) =>
-            let st := { st with ds := { st.ds with tgt := .doc doc }, log := .dsCreate "targets" :: st.log }
+            let st := { st with ds := { st.ds with tgt := .doc doc }, log := .dsCreate "targets" { st.ds with tgt := .doc doc } :: st.log }
             match loadChildren cfg srv snap root.consistent doc st with
             | (.error e, st) => (.error e, st)
             | (.ok (children, _), st) =>
@@ -568,5 +574,16 @@ def readGate (cfg : Config) (v : View) (st : St) : Except Err Unit × St :=
     | (.error e, st) => (.error e, st)
     | (.ok t, st) => if t < v.earliest.1 then (.ok (), st) else (.error (.expired v.earliest.2), st)
   else (.ok (), st)
+
+/-! ### The datastore's history (for crash analysis, C15) -/
+
+def Ev.after? : Ev → Option Datastore
+  | .dsCreate _ a => some a
+  | .dsRemove _ a => some a
+  | _ => none
+
+/-- the datastore after each datastore operation so far, newest first: together with the initial
+datastore these are the states an interrupted operation can leave behind -/
+def St.states (st : St) : List Datastore := st.log.filterMap Ev.after?
 
 end Tough.Client
